@@ -330,6 +330,26 @@ def projection_problems(mp, op, st):
             for k in ("route", "target", "state", "recv", "attempt", "next", "payload", "headers", "trace", "reason"):
                 if (r.get(k) or None) != (s.get(k) or None):
                     probs.append("listed %s field %s: returned %r stored %r" % (r["id"], k, r.get(k), s.get(k)))
+    if op["op"] == "stats" and not res.get("err") and res.get("stats_age"):
+        # the backlog figures of Stats against the stored rows: oldest queued received_at / earliest queued next_run_at over ALL queued
+        # messages, their age and ready lag at the call's clock, and the ten biggest (route, target) buckets with their own figures
+        now = op["now"]
+        qd = [r for r in st["snap"] if r["state"] == "queued"]
+
+        def figures(rows):
+            recv = min((r["recv"] for r in rows if r["recv"]), default=0)
+            nxt = min((r["next"] for r in rows if r["next"]), default=0)
+            return [recv, nxt, (now - recv) if recv and now >= recv else 0, (now - nxt) if nxt and now > nxt else 0]
+        want = figures(qd)
+        if res["stats_age"] != want:
+            probs.append("Stats backlog figures [oldest received_at, earliest next_run_at, oldest age, ready lag] = %s; the stored queued rows give %s" % (res["stats_age"], want))
+        buckets = {}
+        for r in qd:
+            buckets.setdefault((r["route"], r["target"]), []).append(r)
+        top = sorted(buckets.items(), key=lambda kv: (-len(kv[1]), kv[0][0], kv[0][1]))[:10]
+        want_top = [[k[0], k[1], str(len(v))] + [str(x) for x in figures(v)] for k, v in top]
+        if (res.get("stats_top") or []) != want_top:
+            probs.append("Stats top backlog buckets %s; the stored queued rows give %s" % (res.get("stats_top"), want_top))
     cnt = st.get("counters")
     if cnt:
         q = sum(1 for r in st["snap"] if r["state"] == "queued")
